@@ -32,11 +32,30 @@ def run_world(world, idx=0, timeout=180, hashseed='0', extra_env=None, keep=Fals
     for k, kind in enumerate(world.get('broken', [])):
         with open(os.path.join(d, '%s_b%d.py' % (mod, k)), 'w') as f:
             f.write(BROKEN[kind])
+    # doctests (C17): a top-level module `<mod>_d` and/or a module `<mod>_dd` inside the package `<mod>_pk`; each may have a module
+    # docstring with an example and functions f0.. with one; every example passes or fails as scripted
+    dt = world.get('doctests') or {}
+    for where, spec in dt.items():
+        body = ''
+        if spec.get('moddoc') is not None:
+            body += '"""module docstring\n\n>>> 1 + 1\n%d\n"""\n' % (2 if spec['moddoc'] else 3)
+        body += 'import doctest\n\n\n'
+        for k, ok in enumerate(spec.get('funcs', [])):
+            body += 'def f%d():\n    """\n    >>> 2 * 2\n    %d\n    """\n\n\n' % (k, 4 if ok else 5)
+        body += 'def test_suite():\n    return doctest.DocTestSuite()\n'
+        if where == 'top':
+            target = os.path.join(d, mod + '_d.py')
+        else:
+            os.makedirs(os.path.join(d, mod + '_pk'), exist_ok=True)
+            open(os.path.join(d, mod + '_pk', '__init__.py'), 'w').close()
+            target = os.path.join(d, mod + '_pk', mod + '_dd.py')
+        with open(target, 'w') as f:
+            f.write(body)
     wpath = os.path.join(d, 'world.json')
     json.dump(world, open(wpath, 'w'))
     trace = os.path.join(d, 'trace.jsonl')
     open(trace, 'w').close()
-    args = ['--path', d, '--tests-pattern', '^%s%s$' % (mod, r'(_b\d+)?' if world.get('broken') else '')] + list(world.get('options', []))
+    args = ['--path', d, '--tests-pattern', '^%s%s$' % (mod, r'(_b\d+|_dd?)?' if (world.get('broken') or world.get('doctests')) else '')] + list(world.get('options', []))
     if world.get('select_none'):
         # filters that leave nothing to run (-t / --layer matching nothing): the model is handed the world without tests
         args += {'-t': ['-t', 'zz_no_such_test'], '--layer': ['--layer', 'zz_no_such_layer']}[world['select_none']]
